@@ -579,6 +579,15 @@ func (p *G1Affine) setBytes(buf []byte, subGroupCheck bool) (int, error) {
 
 	// if infinity is encoded in the metadata, we don't need to read the buffer
 	if mData == mCompressedInfinity {
+		// the remaining bits and bytes of the encoding of infinity must be zero
+		if buf[0]&^mMask != 0 {
+			return 0, errors.New("invalid infinity point encoding")
+		}
+		for _, b := range buf[1:SizeOfG1AffineCompressed] {
+			if b != 0 {
+				return 0, errors.New("invalid infinity point encoding")
+			}
+		}
 		p.X.SetZero()
 		p.Y.SetZero()
 		return SizeOfG1AffineCompressed, nil
@@ -700,6 +709,15 @@ func (p *G1Affine) unsafeSetCompressedBytes(buf []byte) (isInfinity bool, err er
 	mData := buf[0] & mMask
 
 	if mData == mCompressedInfinity {
+		// the remaining bits and bytes of the encoding of infinity must be zero
+		if buf[0]&^mMask != 0 {
+			return true, errors.New("invalid infinity point encoding")
+		}
+		for _, b := range buf[1:SizeOfG1AffineCompressed] {
+			if b != 0 {
+				return true, errors.New("invalid infinity point encoding")
+			}
+		}
 		p.X.SetZero()
 		p.Y.SetZero()
 		isInfinity = true
